@@ -168,8 +168,7 @@ theorem de_option_nonnull {x : Serde.Ext} {σ : Space} {fd : Nat} {t t' : Id} {e
 
 theorem extraE_NF {f : Schema → Json → Option Bool} {props : List (String × Schema)} {addl : Additional Schema} :
     ∀ {kvs : List (String × Json)},
-      (∀ k v, (k, v) ∈ kvs → props.any (fun p => p.1 == k) = false →
-        NF (match addl with | .open_ => some true | .closed => some false | .schema s => f s v)) →
+      (∀ k v, (k, v) ∈ kvs → props.any (fun p => p.1 == k) = false → NF (extraHere f addl v)) →
       NF (extraE f props addl kvs) := by
   intro kvs
   induction kvs with
@@ -248,6 +247,86 @@ theorem find_mem_key {props : List (String × Schema)} {k : String} {q : String 
   have := List.find?_some h
   exact ⟨List.mem_of_find?_eq_some h, by simpa using this⟩
 
+/-- the three facts about an object read by a struct (or struct variant), pointwise -/
+theorem struct_points {x : Serde.Ext} {vx : Validate.Ext} {d : Doc} {σ : Space} {g : Nat} {rec : Schema → Id → Bool}
+    (hrec : ∀ s' t' j' v' fd', rec s' t' = true → de x σ fd' t' j' = .ok v' → NF (validE vx d g s' j'))
+    {props : List (String × Schema)} {req : List String} {addl : Additional Schema} {fields : List Field} {deny : Bool}
+    (he : structE rec d σ props req addl fields deny = true)
+    {fd : Nat} {kvs : List (String × Json)} {v : Val} (hde : deStruct x σ (fd + 1) fields deny (.obj kvs) = .ok v) :
+    requiredE d props kvs req = true ∧
+    (∀ k s, (k, s) ∈ props → ∀ w, Json.lookup kvs k = some w →
+      (w = .null ∧ req.contains k = false) ∨ NF (validE vx d g s w)) ∧
+    (∀ k w, (k, w) ∈ kvs → props.any (fun p => p.1 == k) = false → NF (extraHere (validE vx d g) addl w)) := by
+  simp only [structE, Bool.and_eq_true, Bool.not_eq_true'] at he
+  obtain ⟨⟨⟨⟨⟨⟨hnf, hndf⟩, hndp⟩, haddl⟩, hall⟩, hfe⟩, hreq⟩ := he
+  obtain ⟨hR, hD⟩ := C05.struct_object_enforced x σ fd fields deny kvs v hde
+  refine ⟨?_, ?_, ?_⟩
+  · simp only [requiredE, List.all_eq_true, Bool.or_eq_true]
+    intro r hr
+    simp only [requiredFields, List.all_eq_true] at hreq
+    have h1 := hreq r hr
+    have present : ∀ p, fields.find? (fun p => p.wire == r) = some p →
+        (match p.state with | .required => !optionLikeT σ p.ty | _ => false) = true →
+        (Json.lookup kvs r).isSome = true := by
+      intro p hff h1
+      have hpm : p ∈ fields := List.mem_of_find?_eq_some hff
+      have hpw : p.wire = r := by simpa using List.find?_some hff
+      cases hst : p.state with
+      | required =>
+        rw [hst] at h1
+        simp only [Bool.not_eq_true'] at h1
+        have := hR p hpm (by rw [hst]) h1
+        rw [hpw] at this; exact this
+      | optional => rw [hst] at h1; simp at h1
+      | dflt dv => rw [hst] at h1; simp at h1
+    split at h1
+    · rename_i k s p hfp hff
+      simp only [Bool.or_eq_true] at h1
+      rcases h1 with h1 | h1
+      · right; rw [hfp]; exact h1
+      · left; exact present p hff h1
+    · rename_i p hfp hff
+      left; exact present p hff h1
+    · simp at h1
+  · intro k s hks w hw
+    have hfield : ∃ p ∈ fields, p.wire = k := by
+      have := List.all_eq_true.mp hall (k, s) hks
+      simpa using this
+    obtain ⟨p, hp, hpw⟩ := hfield
+    have hks' : props.find? (fun q => q.1 == k) = some (k, s) := by
+      have := nodupB_find_gen (fun (q : String × Schema) => q.1) hndp (k, s) hks
+      simpa using this
+    rcases fieldsE_mem hfe p hp with ⟨hnone, _⟩ | ⟨q, hq, hcase⟩
+    · rw [hpw, hks'] at hnone; exact absurd hnone (by simp)
+    rw [hpw, hks'] at hq
+    simp only [Option.some.injEq] at hq; subst hq
+    obtain ⟨a, ha⟩ := deStruct_member hde p hp w (by rw [hpw]; exact hw)
+    rcases hcase with hcase | ⟨t', ed, im, hg, hno, hnr, hrt⟩
+    · exact Or.inr (hrec s p.ty w a fd hcase ha)
+    · rw [hpw] at hnr
+      by_cases hwn : w = .null
+      · exact Or.inl ⟨hwn, hnr⟩
+      · right
+        cases fd with
+        | zero => simp [de] at ha
+        | succ fd' =>
+          obtain ⟨v', hv'⟩ := de_option_nonnull hg hno hwn ha
+          exact hrec s t' w v' fd' hrt hv'
+  · intro k w hkw hnot
+    cases addl with
+    | open_ => simp [extraHere, NF]
+    | schema sv => simp at haddl
+    | closed =>
+      simp only at haddl
+      obtain ⟨p, hp, hpw⟩ := hD haddl (k, w) hkw
+      rcases fieldsE_mem hfe p hp with ⟨_, hopn⟩ | ⟨q, hq, _⟩
+      · exact absurd hopn (by simp)
+      obtain ⟨hqm, hqk⟩ := find_mem_key hq
+      have : props.any (fun p => p.1 == k) = true := by
+        simp only [List.any_eq_true]
+        exact ⟨q, hqm, by simp [hqk, hpw]⟩
+      rw [this] at hnot; exact absurd hnot (by simp)
+
 /-- **objects**: required members, closed objects, and the members' own schemas -/
 theorem struct_sound {x : Serde.Ext} {vx : Validate.Ext} {d : Doc} {σ : Space} {g : Nat} {rec : Schema → Id → Bool}
     (hrec : ∀ s' t' j' v' fd', rec s' t' = true → de x σ fd' t' j' = .ok v' → NF (validE vx d g s' j'))
@@ -255,85 +334,11 @@ theorem struct_sound {x : Serde.Ext} {vx : Validate.Ext} {d : Doc} {σ : Space} 
     (he : structE rec d σ props req addl fields deny = true)
     {fd : Nat} {j : Json} {v : Val} (hde : deStruct x σ (fd + 1) fields deny j = .ok v) :
     NF (validE vx d (g + 1) (.object props req addl) j) := by
-  simp only [structE, Bool.and_eq_true, Bool.not_eq_true'] at he
-  obtain ⟨⟨⟨⟨⟨⟨hnf, hndf⟩, hndp⟩, haddl⟩, hall⟩, hfe⟩, hreq⟩ := he
   cases j with
   | obj kvs =>
+    obtain ⟨hR, hD, hX⟩ := struct_points hrec he hde
     simp only [validE]
-    obtain ⟨hR, hD⟩ := C05.struct_object_enforced x σ fd fields deny kvs v hde
-    refine and3_NF ?_ (and3_NF ?_ ?_)
-    · -- required
-      have : requiredE d props kvs req = true := by
-        simp only [requiredE, List.all_eq_true, Bool.or_eq_true]
-        intro r hr
-        simp only [requiredFields, List.all_eq_true] at hreq
-        have h1 := hreq r hr
-        have present : ∀ p, fields.find? (fun p => p.wire == r) = some p →
-            (match p.state with | .required => !optionLikeT σ p.ty | _ => false) = true →
-            (Json.lookup kvs r).isSome = true := by
-          intro p hff h1
-          have hpm : p ∈ fields := List.mem_of_find?_eq_some hff
-          have hpw : p.wire = r := by simpa using List.find?_some hff
-          cases hst : p.state with
-          | required =>
-            rw [hst] at h1
-            simp only [Bool.not_eq_true'] at h1
-            have := hR p hpm (by rw [hst]) h1
-            rw [hpw] at this; exact this
-          | optional => rw [hst] at h1; simp at h1
-          | dflt dv => rw [hst] at h1; simp at h1
-        split at h1
-        · rename_i k s p hfp hff
-          simp only [Bool.or_eq_true] at h1
-          rcases h1 with h1 | h1
-          · right; rw [hfp]; exact h1
-          · left; exact present p hff h1
-        · rename_i p hfp hff
-          left; exact present p hff h1
-        · simp at h1
-      simp [this, NF]
-    · -- declared members
-      apply declaredE_NF
-      intro k s hks w hw
-      have hfield : ∃ p ∈ fields, p.wire = k := by
-        have := List.all_eq_true.mp hall (k, s) hks
-        simpa using this
-      obtain ⟨p, hp, hpw⟩ := hfield
-      have hks' : props.find? (fun q => q.1 == k) = some (k, s) := by
-        have := nodupB_find_gen (fun (q : String × Schema) => q.1) hndp (k, s) hks
-        simpa using this
-      rcases fieldsE_mem hfe p hp with ⟨hnone, _⟩ | ⟨q, hq, hcase⟩
-      · rw [hpw, hks'] at hnone; exact absurd hnone (by simp)
-      rw [hpw, hks'] at hq
-      simp only [Option.some.injEq] at hq; subst hq
-      obtain ⟨a, ha⟩ := deStruct_member hde p hp w (by rw [hpw]; exact hw)
-      rcases hcase with hcase | ⟨t', ed, im, hg, hno, hnr, hrt⟩
-      · exact Or.inr (hrec s p.ty w a fd hcase ha)
-      · rw [hpw] at hnr
-        by_cases hwn : w = .null
-        · exact Or.inl ⟨hwn, hnr⟩
-        · right
-          cases fd with
-          | zero => simp [de] at ha
-          | succ fd' =>
-            obtain ⟨v', hv'⟩ := de_option_nonnull hg hno hwn ha
-            exact hrec s t' w v' fd' hrt hv'
-    · -- members no property declares
-      apply extraE_NF
-      intro k w hkw hnot
-      cases addl with
-      | open_ => simp [NF]
-      | schema sv => simp at haddl
-      | closed =>
-        simp only at haddl
-        obtain ⟨p, hp, hpw⟩ := hD haddl (k, w) hkw
-        rcases fieldsE_mem hfe p hp with ⟨_, hopn⟩ | ⟨q, hq, _⟩
-        · exact absurd hopn (by simp)
-        obtain ⟨hqm, hqk⟩ := find_mem_key hq
-        have : props.any (fun p => p.1 == k) = true := by
-          simp only [List.any_eq_true]
-          exact ⟨q, hqm, by simp [hqk, hpw]⟩
-        rw [this] at hnot; exact absurd hnot (by simp)
+    exact and3_NF (by simp [hR, NF]) (and3_NF (declaredE_NF hD) (extraE_NF hX))
   | arr xs => simp [validE, NF]
   | null => simp [deStruct] at hde; split at hde <;> simp at hde
   | bool b => simp [deStruct] at hde; split at hde <;> simp at hde
@@ -446,13 +451,659 @@ theorem admitsNull_valid {vx : Validate.Ext} {d : Doc} :
         exact countV_NF hs' (ih s' ha g)
       | _ => all_goals simp [admitsNull] at h
 
+/-- the induction hypothesis at every validity fuel up to `g` -/
+def HR (x : Serde.Ext) (vx : Validate.Ext) (d : Doc) (σ : Space) (rec : Schema → Id → Bool) (g : Nat) : Prop :=
+  ∀ g', g' ≤ g → ∀ s' t' j' v' fd', rec s' t' = true → de x σ fd' t' j' = .ok v' → NF (validE vx d g' s' j')
+
+theorem tuple_sound {x : Serde.Ext} {vx : Validate.Ext} {d : Doc} {σ : Space} {g : Nat} {rec : Schema → Id → Bool}
+    (hrec : ∀ s' t' j' v' fd', rec s' t' = true → de x σ fd' t' j' = .ok v' → NF (validE vx d g s' j'))
+    {items : List Schema} {ts : List Id} (he : zipB rec items ts = true) {fd : Nat} {xs : List Json} {vs : List Val}
+    (hvs : zipM (de x σ fd) ts xs = .ok vs) : NF (zipV (validE vx d g) items xs) := by
+  obtain ⟨hl, hz⟩ := zipB_get he
+  have hlen := C05.zipM_length hvs
+  refine zipV_NF (by omega) ?_
+  intro n s' j' hs hj
+  have hn : n < ts.length := by
+    have := (List.getElem?_eq_some_iff.mp hs).1; omega
+  have ht : ts[n]? = some ts[n] := List.getElem?_eq_getElem hn
+  obtain ⟨v', hv'⟩ := zipM_get hvs n ts[n] j' ht hj
+  exact hrec s' ts[n] j' v' fd (hz n s' ts[n] hs ht) hv'
+
+/-- the payload of a variant, at any validity fuel `n ≤ g` -/
+theorem variantE_sound {x : Serde.Ext} {vx : Validate.Ext} {d : Doc} {σ : Space} {g : Nat} {rec : Schema → Id → Bool}
+    (hr : HR x vx d σ rec g) {deny seqOk : Bool} {s : Schema} {dt : VDetails}
+    (he : variantE rec (structE rec d σ) deny s dt = true)
+    {fd : Nat} {j : Json} {v : Val} (hde : deVariantBody x σ (fd + 1) dt deny seqOk j = .ok v)
+    (n : Nat) (hn : n ≤ g) : NF (validE vx d n s j) := by
+  cases n with
+  | zero => simp [validE, NF]
+  | succ m =>
+    have hm : ∀ s' t' j' v' fd', rec s' t' = true → de x σ fd' t' j' = .ok v' → NF (validE vx d m s' j') :=
+      hr m (by omega)
+    unfold variantE at he
+    split at he
+    · -- data-less variant / null
+      simp only [deVariantBody] at hde
+      cases j <;> simp [validE, NF] at hde ⊢
+    · -- item
+      rename_i t
+      simp only [deVariantBody] at hde
+      exact hr (m + 1) hn s t j v fd he hde
+    · -- tuple
+      rename_i ts items
+      simp only [deVariantBody] at hde
+      cases j with
+      | arr xs =>
+        simp only at hde
+        split at hde
+        · rename_i vs hvs
+          simp only [validE]
+          exact tuple_sound hm he hvs
+        · simp at hde
+      | _ => all_goals simp at hde
+    · -- struct
+      rename_i ps props req addl
+      simp only [deVariantBody] at hde
+      have hde' : deStruct x σ fd ps deny j = .ok v := by
+        cases seqOk <;> cases j <;> simp_all
+      cases fd with
+      | zero => simp [deStruct] at hde'
+      | succ fd' => exact struct_sound hm he hde'
+    · simp at he
+
+theorem firstOk_ok {α : Type} {F : α → Nat → Except E Val} :
+    ∀ {l : List α} {k : Nat} {r : Val}, firstOk F l k = .ok r → ∃ n a, l[n]? = some a ∧ F a (k + n) = .ok r := by
+  intro l
+  induction l with
+  | nil => intro k r h; simp [firstOk] at h
+  | cons a rest ih =>
+    intro k r h
+    simp only [firstOk] at h
+    split at h
+    · rename_i v hv
+      simp only [Except.ok.injEq] at h; subst h
+      exact ⟨0, a, by simp, by simpa using hv⟩
+    · obtain ⟨n, b, hb, hF⟩ := ih h
+      exact ⟨n + 1, b, by simpa using hb, by rw [← hF]; congr 1; omega⟩
+    · simp at h
+
+theorem untaggedE_get {rec : Schema → Id → Bool} {d : Doc} {σ : Space} {deny : Bool} :
+    ∀ {ss : List Schema} {vs : List Variant}, untaggedE rec d σ deny ss vs = true →
+      ∀ (n : Nat) (v : Variant), vs[n]? = some v →
+        ∃ s, ss[n]? = some s ∧ variantE rec (structE rec d σ) deny s v.details = true := by
+  intro ss
+  induction ss with
+  | nil => intro vs h n v hv; cases vs <;> simp [untaggedE] at h hv
+  | cons s rest ih =>
+    intro vs h n v hv
+    cases vs with
+    | nil => simp at hv
+    | cons w ws =>
+      simp only [untaggedE, Bool.and_eq_true] at h
+      cases n with
+      | zero =>
+        simp only [List.getElem?_cons_zero, Option.some.injEq] at hv; subst hv
+        exact ⟨s, by simp, h.1⟩
+      | succ m =>
+        obtain ⟨s', hs', he'⟩ := ih h.2 m v (by simpa using hv)
+        exact ⟨s', by simpa using hs', he'⟩
+
+/-- an externally tagged union: the accepted document is valid for the branch that stands for the variant read -/
+theorem external_sound {x : Serde.Ext} {vx : Validate.Ext} {d : Doc} {σ : Space} {g : Nat} {rec : Schema → Id → Bool}
+    (hr : HR x vx d σ rec g) {ss : List Schema} {nm : String} {variants : List Variant} {deny : Bool}
+    {dv : Option Json} {bes : List Bespoke} {t : Id} {ed : List String} {im : List Impl}
+    (hget : σ.get t = some ⟨.enum nm .external variants deny dv bes, ed, im⟩)
+    (he : variants.all (fun vr => ss.any (extBranchE rec d σ deny vr)) = true)
+    {fd : Nat} {j : Json} {v : Val} (hde : de x σ (fd + 1) t j = .ok v) :
+    NF ((countV (fun s' => validE vx d g s' j) ss).map (fun n => decide (0 < n))) := by
+  simp only [List.all_eq_true, List.any_eq_true] at he
+  simp only [de, hget] at hde
+  -- the variant that was read, and its branch
+  have key : ∀ (i : Nat) (hlt : i < variants.length), ∃ s ∈ ss, extBranchE rec d σ deny variants[i] s = true :=
+    fun i hlt => he variants[i] (List.getElem_mem hlt)
+  cases g with
+  | zero =>
+    -- no fuel for the branches: no verdict
+    cases ss with
+    | nil =>
+      exfalso
+      cases j with
+      | str w =>
+        simp only at hde
+        split at hde
+        · simp at hde
+        · rename_i i hi
+          obtain ⟨s, hs, _⟩ := key i (List.findIdx?_eq_some_iff_getElem.mp hi).1
+          simp at hs
+      | obj kvs =>
+        cases kvs with
+        | nil => simp at hde
+        | cons kv rest =>
+          obtain ⟨k, body⟩ := kv
+          simp only at hde
+          split at hde
+          · simp at hde
+          · split at hde
+            · simp at hde
+            · rename_i i hi
+              obtain ⟨s, hs, _⟩ := key i (List.findIdx?_eq_some_iff_getElem.mp hi).1
+              simp at hs
+      | _ => all_goals simp at hde
+    | cons s0 rest => simp [countV, validE, NF]
+  | succ g' =>
+    cases j with
+    | str w =>
+      simp only at hde
+      split at hde
+      · simp at hde
+      · rename_i i hi
+        have hlt := (List.findIdx?_eq_some_iff_getElem.mp hi).1
+        have hp := (List.findIdx?_eq_some_iff_getElem.mp hi).2.1
+        have hw : variants[i].wire = w := by simpa using hp
+        obtain ⟨s, hs, hb⟩ := key i hlt
+        rw [List.getElem?_eq_getElem hlt] at hde
+        -- the string form is read for a data-less variant only
+        have hsimple : isSimple variants[i] = true := by
+          cases hd : variants[i].details with
+          | simple => simp [isSimple, hd]
+          | _ => all_goals (rcases hvi : variants[i] with ⟨r, idn, dt⟩; rw [hvi] at hd hde; simp only at hd; subst hd; simp at hde)
+        refine countV_NF hs ?_
+        unfold extBranchE at hb
+        split at hb
+        · rename_i vs
+          simp only [Bool.and_eq_true] at hb
+          have hm := hb.2
+          rw [hw] at hm
+          simp only [validE, NF, ne_eq, Option.some.injEq, Bool.or_eq_false_iff, not_and]
+          intro hc; rw [hm] at hc; exact absurd hc (by simp)
+        · simp [hsimple] at hb
+        · simp at hb
+    | obj kvs =>
+      cases kvs with
+      | nil => simp at hde
+      | cons kv rest =>
+        obtain ⟨k, body⟩ := kv
+        simp only at hde
+        split at hde
+        · simp at hde
+        · rename_i hall
+          have hall' : rest.all (fun kv => kv.1 == k) = true := by simpa using hall
+          split at hde
+          · simp at hde
+          · rename_i i hi
+            have hlt := (List.findIdx?_eq_some_iff_getElem.mp hi).1
+            have hp := (List.findIdx?_eq_some_iff_getElem.mp hi).2.1
+            have hw : variants[i].wire = k := by simpa using hp
+            obtain ⟨s, hs, hb⟩ := key i hlt
+            rw [List.getElem?_eq_getElem hlt] at hde
+            simp only at hde
+            split at hde
+            · rename_i p hp'
+              refine countV_NF hs ?_
+              unfold extBranchE at hb
+              split at hb
+              · -- a data-less variant in its map form
+                rename_i vs
+                simp only [Bool.and_eq_true] at hb
+                have hm := hb.2
+                rw [hw] at hm
+                have hbody : body = .null := by
+                  cases hdv : variants[i].details with
+                  | simple =>
+                    rw [hdv] at hp'
+                    cases fd with
+                    | zero => simp [deVariantBody] at hp'
+                    | succ fd' =>
+                      simp only [deVariantBody] at hp'
+                      cases body <;> simp at hp' ⊢
+                  | _ => all_goals (have := hb.1; simp [isSimple, hdv] at this)
+                subst hbody
+                simp only [validE, NF, ne_eq, Option.some.injEq, Bool.or_eq_false_iff, not_and]
+                intro _
+                simp [hall', hm]
+              · -- `{wire: payload}`
+                rename_i k0 sk k0' addl
+                simp only [Bool.and_eq_true, beq_iff_eq] at hb
+                obtain ⟨⟨⟨_, hk0⟩, hk0'⟩, hve⟩ := hb
+                rw [hw] at hk0 hk0'
+                subst hk0; subst hk0'
+                cases fd with
+                | zero => simp [deVariantBody] at hp'
+                | succ fd' =>
+                  have hsk := variantE_sound hr hve hp' g' (by omega)
+                  simp only [validE]
+                  refine and3_NF ?_ (and3_NF ?_ ?_)
+                  · simp [requiredE, Json.lookup, NF]
+                  · apply declaredE_NF
+                    intro k1 s1 hks w hwl
+                    simp only [List.mem_singleton, Prod.mk.injEq] at hks
+                    obtain ⟨rfl, rfl⟩ := hks
+                    simp only [Json.lookup, if_true, Option.some.injEq] at hwl
+                    subst hwl
+                    exact Or.inr hsk
+                  · apply extraE_NF
+                    intro k1 w1 hkw hnot
+                    exfalso
+                    simp only [List.mem_cons] at hkw
+                    rcases hkw with hkw | hkw
+                    · simp only [Prod.mk.injEq] at hkw
+                      rw [hkw.1] at hnot; simp at hnot
+                    · have := List.all_eq_true.mp hall' (k1, w1) hkw
+                      simp only [beq_iff_eq] at this
+                      rw [this] at hnot; simp at hnot
+              · simp at hb
+            · simp at hde
+    | _ => all_goals simp at hde
+
+/-- an untagged union: the accepted document is valid for the branch of the first variant that reads it -/
+theorem untagged_sound {x : Serde.Ext} {vx : Validate.Ext} {d : Doc} {σ : Space} {g : Nat} {rec : Schema → Id → Bool}
+    (hr : HR x vx d σ rec g) {ss : List Schema} {nm : String} {variants : List Variant} {deny : Bool}
+    {dv : Option Json} {bes : List Bespoke} {t : Id} {ed : List String} {im : List Impl}
+    (hget : σ.get t = some ⟨.enum nm .untagged variants deny dv bes, ed, im⟩)
+    (he : untaggedE rec d σ deny ss variants = true)
+    {fd : Nat} {j : Json} {v : Val} (hde : de x σ (fd + 1) t j = .ok v) :
+    NF ((countV (fun s' => validE vx d g s' j) ss).map (fun n => decide (0 < n))) := by
+  simp only [de, hget] at hde
+  obtain ⟨n, a, ha, hF⟩ := firstOk_ok hde
+  split at hF
+  · rename_i p hp
+    obtain ⟨s, hs, hve⟩ := untaggedE_get he n a ha
+    have hsm : s ∈ ss := List.mem_of_getElem? hs
+    cases fd with
+    | zero => simp [deVariantBody] at hp
+    | succ fd' => exact countV_NF hsm (variantE_sound hr hve hp g (Nat.le_refl g))
+  · simp at hF
+
+theorem tag_elem {vx : Validate.Ext} {d : Doc} (w : String) (n : Nat) :
+    NF (validE vx d n (.enumVals [.str w]) (.str w)) := by
+  cases n with
+  | zero => simp [validE, NF]
+  | succ m =>
+    have : (Json.str w == Json.str w) = true := by simp [BEq.beq, Json.beq]
+    simp [validE, NF, this]
+
+theorem find_enum_tag {props : List (String × Schema)} {tg : String} {q : String × Schema}
+    (hnd : nodupB (props.map (·.1)) = true) (hf : props.find? (fun p => p.1 == tg) = some q) :
+    ∀ k s, (k, s) ∈ props → k = tg → (k, s) = q := by
+  intro k s hks hk
+  have := nodupB_find_gen (fun (q : String × Schema) => q.1) hnd (k, s) hks
+  simp only [hk] at this
+  rw [hf] at this
+  simp only [Option.some.injEq] at this
+  rw [this, hk]
+
+theorem any_filter_ne {props : List (String × Schema)} {tg k : String} (hne : k ≠ tg) :
+    (props.filter (fun p => p.1 != tg)).any (fun p => p.1 == k) = props.any (fun p => p.1 == k) := by
+  induction props with
+  | nil => rfl
+  | cons a r ih =>
+    simp only [List.filter]
+    by_cases ha : a.1 = tg
+    · have h1 : (a.1 != tg) = false := by simp [ha]
+      have h2 : (a.1 == k) = false := by
+        simp only [beq_eq_false_iff_ne, ne_eq]; intro h; exact hne (h ▸ ha)
+      simp only [h1, List.any_cons, h2, Bool.false_or]
+      exact ih
+    · have h1 : (a.1 != tg) = true := by simp [ha]
+      simp only [h1, List.any_cons, ih]
+
+/-- an internally tagged union -/
+theorem internal_sound {x : Serde.Ext} {vx : Validate.Ext} {d : Doc} {σ : Space} {g : Nat} {rec : Schema → Id → Bool}
+    (hr : HR x vx d σ rec g) {ss : List Schema} {nm tg : String} {variants : List Variant} {deny : Bool}
+    {dv : Option Json} {bes : List Bespoke} {t : Id} {ed : List String} {im : List Impl}
+    (hget : σ.get t = some ⟨.enum nm (.internal tg) variants deny dv bes, ed, im⟩)
+    (he : variants.all (fun vr => ss.any (intBranchE rec d σ deny tg vr)) = true)
+    {fd : Nat} {j : Json} {v : Val} (hde : de x σ (fd + 1) t j = .ok v) :
+    NF ((countV (fun s' => validE vx d g s' j) ss).map (fun n => decide (0 < n))) := by
+  simp only [List.all_eq_true, List.any_eq_true] at he
+  simp only [de, hget] at hde
+  cases j with
+  | obj kvs =>
+    simp only at hde
+    split at hde
+    · rename_i s0 hlk
+      split at hde
+      · simp at hde
+      · rename_i i hi
+        have hlt := (List.findIdx?_eq_some_iff_getElem.mp hi).1
+        have hp := (List.findIdx?_eq_some_iff_getElem.mp hi).2.1
+        have hw : variants[i].wire = s0 := by simpa using hp
+        obtain ⟨s, hs, hb⟩ := he variants[i] (List.getElem_mem hlt)
+        rw [List.getElem?_eq_getElem hlt] at hde
+        refine countV_NF hs ?_
+        unfold intBranchE at hb
+        split at hb
+        · rename_i props req addl
+          split at hb
+          · rename_i tg' w hfind
+            simp only [Bool.and_eq_true, beq_iff_eq] at hb
+            obtain ⟨⟨hww, hnd⟩, hdet⟩ := hb
+            rw [hw] at hww; subst hww
+            have htg' : tg' = tg := by simpa using List.find?_some hfind
+            subst htg'
+            have htagmem : (tg', Schema.enumVals [.str w]) ∈ props := List.mem_of_find?_eq_some hfind
+            cases g with
+            | zero => simp [validE, NF]
+            | succ g' =>
+              have hrec : ∀ s' t' j' v' fd', rec s' t' = true → de x σ fd' t' j' = .ok v' → NF (validE vx d g' s' j') :=
+                hr g' (by omega)
+              simp only [validE]
+              rcases hvi : variants[i] with ⟨raw, idn, dt⟩
+              rw [hvi] at hde hdet
+              simp only at hde hdet
+              cases dt with
+              | simple =>
+                simp only [Bool.and_eq_true, List.all_eq_true, beq_iff_eq] at hdet
+                obtain ⟨⟨hpall, hrall⟩, hopen⟩ := hdet
+                refine and3_NF ?_ (and3_NF ?_ ?_)
+                · have : requiredE d props kvs req = true := by
+                    simp only [requiredE, List.all_eq_true, Bool.or_eq_true]
+                    intro r hr'
+                    left; rw [hrall r hr', hlk]; rfl
+                  simp [this, NF]
+                · apply declaredE_NF
+                  intro k s1 hks w1 hw1
+                  have hk := hpall (k, s1) hks
+                  simp only at hk
+                  have := find_enum_tag hnd hfind k s1 hks hk
+                  simp only [Prod.mk.injEq] at this
+                  obtain ⟨rfl, rfl⟩ := this
+                  rw [hlk] at hw1
+                  simp only [Option.some.injEq] at hw1; subst hw1
+                  exact Or.inr (tag_elem w g')
+                · apply extraE_NF
+                  intro k w1 _ _
+                  cases addl <;> simp [extraHere, NF] at hopen ⊢
+              | struct ps =>
+                simp only at hde
+                cases fd with
+                | zero => simp [deStruct] at hde
+                | succ fd' =>
+                  split at hde
+                  · rename_i p hp'
+                    obtain ⟨hR, hD, hX⟩ := struct_points hrec hdet hp'
+                    refine and3_NF ?_ (and3_NF ?_ ?_)
+                    · have : requiredE d props kvs req = true := by
+                        simp only [requiredE, List.all_eq_true, Bool.or_eq_true] at hR ⊢
+                        intro r hr'
+                        by_cases hrt : r = tg'
+                        · left; rw [hrt, hlk]; rfl
+                        · have hmem : r ∈ req.filter (fun r => r != tg') := by
+                            simp only [List.mem_filter, bne_iff_ne, ne_eq]; exact ⟨hr', hrt⟩
+                          have := hR r hmem
+                          rw [lookup_erase_ne hrt, find_filter_ne hrt] at this
+                          exact this
+                      simp [this, NF]
+                    · apply declaredE_NF
+                      intro k s1 hks w1 hw1
+                      by_cases hk : k = tg'
+                      · have := find_enum_tag hnd hfind k s1 hks hk
+                        simp only [Prod.mk.injEq] at this
+                        obtain ⟨rfl, rfl⟩ := this
+                        rw [hlk] at hw1
+                        simp only [Option.some.injEq] at hw1; subst hw1
+                        exact Or.inr (tag_elem w g')
+                      · have hmem : (k, s1) ∈ props.filter (fun p => p.1 != tg') := by
+                          simp only [List.mem_filter, bne_iff_ne, ne_eq]; exact ⟨hks, hk⟩
+                        have := hD k s1 hmem w1 (by rw [lookup_erase_ne hk]; exact hw1)
+                        rcases this with ⟨hn, hc⟩ | hn
+                        · left; refine ⟨hn, ?_⟩
+                          have : (req.filter (fun r => r != tg')).contains k = req.contains k := by
+                            simp only [List.contains_eq_mem, List.mem_filter, bne_iff_ne, ne_eq, hk, not_false_eq_true, and_true]
+                          rw [← this]; exact hc
+                        · exact Or.inr hn
+                    · apply extraE_NF
+                      intro k w1 hkw hnot
+                      have hk : k ≠ tg' := by
+                        intro hk
+                        have : props.any (fun p => p.1 == k) = true := by
+                          simp only [List.any_eq_true]; exact ⟨_, htagmem, by simp [hk]⟩
+                        rw [this] at hnot; exact absurd hnot (by simp)
+                      have hmem : (k, w1) ∈ Json.erase kvs tg' := by
+                        simp only [Json.erase, List.mem_filter, ne_eq, decide_eq_true_eq]; exact ⟨hkw, hk⟩
+                      exact hX k w1 hmem (by rw [any_filter_ne hk]; exact hnot)
+                  · simp at hde
+              | item t' => simp at hdet
+              | tuple ts => simp at hdet
+          · simp at hb
+        · simp at hb
+    · simp at hde
+  | arr xs => simp at hde
+  | _ => all_goals simp at hde
+
+theorem find_none_any {props : List (String × Schema)} {k : String}
+    (h : props.find? (fun p => p.1 == k) = none) : props.any (fun p => p.1 == k) = false := by
+  induction props with
+  | nil => rfl
+  | cons a r ih =>
+    simp only [List.find?] at h
+    split at h
+    · simp at h
+    · rename_i hne
+      simp only [List.any_cons, hne, Bool.false_or]
+      exact ih h
+
+theorem any_false_find_none {props : List (String × Schema)} {k : String}
+    (h : props.any (fun p => p.1 == k) = false) : props.find? (fun p => p.1 == k) = none := by
+  induction props with
+  | nil => rfl
+  | cons a r ih =>
+    simp only [List.any_cons, Bool.or_eq_false_iff] at h
+    simp only [List.find?, h.1]
+    exact ih h.2
+
+/-- an adjacently tagged union -/
+theorem adjacent_sound {x : Serde.Ext} {vx : Validate.Ext} {d : Doc} {σ : Space} {g : Nat} {rec : Schema → Id → Bool}
+    (hr : HR x vx d σ rec g) {ss : List Schema} {nm tg ct : String} {variants : List Variant} {deny : Bool}
+    {dv : Option Json} {bes : List Bespoke} {t : Id} {ed : List String} {im : List Impl}
+    (hget : σ.get t = some ⟨.enum nm (.adjacent tg ct) variants deny dv bes, ed, im⟩)
+    (he : variants.all (fun vr => ss.any (adjBranchE rec d σ deny tg ct vr)) = true)
+    {fd : Nat} {j : Json} {v : Val} (hde : de x σ (fd + 1) t j = .ok v) :
+    NF ((countV (fun s' => validE vx d g s' j) ss).map (fun n => decide (0 < n))) := by
+  simp only [List.all_eq_true, List.any_eq_true] at he
+  simp only [de, hget] at hde
+  cases j with
+  | obj kvs =>
+    simp only at hde
+    split at hde
+    · simp at hde
+    · rename_i hdeny
+      split at hde
+      · rename_i s0 hlk
+        split at hde
+        · simp at hde
+        · rename_i i hi
+          have hlt := (List.findIdx?_eq_some_iff_getElem.mp hi).1
+          have hp := (List.findIdx?_eq_some_iff_getElem.mp hi).2.1
+          have hw : variants[i].wire = s0 := by simpa using hp
+          obtain ⟨s, hs, hb⟩ := he variants[i] (List.getElem_mem hlt)
+          rw [List.getElem?_eq_getElem hlt] at hde
+          refine countV_NF hs ?_
+          unfold adjBranchE at hb
+          split at hb
+          · rename_i props req addl
+            split at hb
+            · rename_i tg' w hfind
+              simp only [Bool.and_eq_true, beq_iff_eq, bne_iff_ne, ne_eq] at hb
+              obtain ⟨⟨⟨⟨⟨⟨hww, hne⟩, hnd⟩, hpall⟩, hrall⟩, haddl⟩, hcond⟩ := hb
+              rw [hw] at hww; subst hww
+              have htg' : tg' = tg := by simpa using List.find?_some hfind
+              subst htg'
+              have htagmem : (tg', Schema.enumVals [.str w]) ∈ props := List.mem_of_find?_eq_some hfind
+              simp only [List.all_eq_true, Bool.or_eq_true, beq_iff_eq] at hpall hrall
+              cases g with
+              | zero => simp [validE, NF]
+              | succ g' =>
+                simp only [validE]
+                rcases hvi : variants[i] with ⟨raw, idn, dt⟩
+                rw [hvi] at hde hcond
+                simp only at hde hcond
+                -- what the schema says of the content member
+                cases hfc : props.find? (fun p => p.1 == ct) with
+                | none =>
+                  rw [hfc] at hcond
+                  simp only [Bool.and_eq_true, Bool.not_eq_true'] at hcond
+                  obtain ⟨⟨hsimple, hopen⟩, hnreq⟩ := hcond
+                  have hdts : dt = .simple := by
+                    cases dt <;> simp [isSimple] at hsimple ⊢
+                  subst hdts
+                  have hopen' : addl = .open_ := by cases addl <;> simp at hopen ⊢
+                  subst hopen'
+                  refine and3_NF ?_ (and3_NF ?_ ?_)
+                  · have : requiredE d props kvs req = true := by
+                      simp only [requiredE, List.all_eq_true, Bool.or_eq_true]
+                      intro r hr'
+                      rcases hrall r hr' with h | h
+                      · left; rw [h, hlk]; rfl
+                      · exfalso
+                        have : req.contains ct = true := by simp [← h, hr']
+                        rw [this] at hnreq; exact absurd hnreq (by simp)
+                    simp [this, NF]
+                  · apply declaredE_NF
+                    intro k s1 hks w1 hw1
+                    rcases hpall (k, s1) hks with hk | hk
+                    · have := find_enum_tag hnd hfind k s1 hks hk
+                      simp only [Prod.mk.injEq] at this
+                      obtain ⟨rfl, rfl⟩ := this
+                      rw [hlk] at hw1
+                      simp only [Option.some.injEq] at hw1; subst hw1
+                      exact Or.inr (tag_elem w g')
+                    · exfalso
+                      simp only at hk
+                      have := find_none_any hfc
+                      have hmem : props.any (fun p => p.1 == ct) = true := by
+                        simp only [List.any_eq_true]; exact ⟨(k, s1), hks, by simp [hk]⟩
+                      rw [hmem] at this; exact absurd this (by simp)
+                  · apply extraE_NF
+                    intro k w1 _ _
+                    simp [extraHere, NF]
+                | some q =>
+                  obtain ⟨ct', sc⟩ := q
+                  have hct' : ct' = ct := by simpa using List.find?_some hfc
+                  subst hct'
+                  rw [hfc] at hcond
+                  simp only at hcond
+                  refine and3_NF ?_ (and3_NF ?_ ?_)
+                  · -- required
+                    have : requiredE d props kvs req = true := by
+                      simp only [requiredE, List.all_eq_true, Bool.or_eq_true]
+                      intro r hr'
+                      rcases hrall r hr' with h | h
+                      · left; rw [h, hlk]; rfl
+                      · subst h
+                        cases hcl : Json.lookup kvs r with
+                        | some body => left; rfl
+                        | none =>
+                          right
+                          rw [hfc]
+                          simp only
+                          rw [hcl] at hde
+                          cases dt with
+                          | simple => simpa [isSimple] using hcond
+                          | item t' =>
+                            simp only [isSimple, Bool.false_eq_true, if_false, Bool.and_eq_true, Bool.or_eq_true,
+                              Bool.not_eq_true'] at hcond
+                            simp only at hde
+                            split at hde
+                            · rename_i hol
+                              have hreqc : req.contains r = true := by simp [hr']
+                              rcases hcond.2 with (h1 | h1) | h1
+                              · rw [hol] at h1; exact absurd h1 (by simp)
+                              · rw [hreqc] at h1; exact absurd h1 (by simp)
+                              · exact h1
+                            · simp at hde
+                          | tuple ts => simp at hde
+                          | struct ps => simp at hde
+                    simp [this, NF]
+                  · -- declared members: the tag and the content
+                    apply declaredE_NF
+                    intro k s1 hks w1 hw1
+                    rcases hpall (k, s1) hks with hk | hk
+                    · have := find_enum_tag hnd hfind k s1 hks hk
+                      simp only [Prod.mk.injEq] at this
+                      obtain ⟨rfl, rfl⟩ := this
+                      rw [hlk] at hw1
+                      simp only [Option.some.injEq] at hw1; subst hw1
+                      exact Or.inr (tag_elem w g')
+                    · simp only at hk
+                      have := find_enum_tag hnd hfc k s1 hks hk
+                      simp only [Prod.mk.injEq] at this
+                      obtain ⟨rfl, rfl⟩ := this
+                      rw [hw1] at hde
+                      right
+                      cases dt with
+                      | simple =>
+                        have hadm : admitsNull d (nullFuel d) s1 = true := by simpa [isSimple] using hcond
+                        cases w1 with
+                        | null => exact admitsNull_valid _ _ hadm g'
+                        | _ => all_goals simp at hde
+                      | item t' =>
+                        simp only [isSimple, Bool.false_eq_true, if_false, Bool.and_eq_true] at hcond
+                        simp only at hde
+                        split at hde
+                        · rename_i p hp'
+                          cases fd with
+                          | zero => simp [deVariantBody] at hp'
+                          | succ fd' => exact variantE_sound hr hcond.1 hp' g' (by omega)
+                        · simp at hde
+                      | tuple ts =>
+                        simp only [isSimple, Bool.false_eq_true, if_false, Bool.and_eq_true] at hcond
+                        simp only at hde
+                        split at hde
+                        · rename_i p hp'
+                          cases fd with
+                          | zero => simp [deVariantBody] at hp'
+                          | succ fd' => exact variantE_sound hr hcond.1 hp' g' (by omega)
+                        · simp at hde
+                      | struct ps =>
+                        simp only [isSimple, Bool.false_eq_true, if_false, Bool.and_eq_true] at hcond
+                        simp only at hde
+                        split at hde
+                        · rename_i p hp'
+                          cases fd with
+                          | zero => simp [deVariantBody] at hp'
+                          | succ fd' => exact variantE_sound hr hcond.1 hp' g' (by omega)
+                        · simp at hde
+                  · -- other members
+                    apply extraE_NF
+                    intro k w1 hkw hnot
+                    cases addl with
+                    | open_ => simp [extraHere, NF]
+                    | schema sv => simp at haddl
+                    | closed =>
+                      exfalso
+                      simp only at haddl
+                      subst haddl
+                      have hk : k = tg' ∨ k = ct' := by
+                        have hd : ¬ (kvs.any (fun kv => kv.1 ≠ tg' && kv.1 ≠ ct') = true) := by simpa using hdeny
+                        by_cases h1 : k = tg'
+                        · exact Or.inl h1
+                        · by_cases h2 : k = ct'
+                          · exact Or.inr h2
+                          · exfalso; apply hd
+                            simp only [List.any_eq_true]
+                            exact ⟨(k, w1), hkw, by simp [h1, h2]⟩
+                      have : props.any (fun p => p.1 == k) = true := by
+                        simp only [List.any_eq_true]
+                        rcases hk with hk | hk
+                        · exact ⟨_, htagmem, by simp [hk]⟩
+                        · exact ⟨_, List.mem_of_find?_eq_some hfc, by simp [hk]⟩
+                      rw [this] at hnot; exact absurd hnot (by simp)
+            · simp at hb
+          · simp at hb
+      · simp at hde
+  | arr xs => simp at hde
+  | _ => all_goals simp at hde
+
 /-- one schema construct against one non-transparent kind of entry -/
 theorem encD_sound {x : Serde.Ext} {vx : Validate.Ext} (hreg : ∀ p s, x.regex p s = vx.regex p s)
     {d : Doc} {σ : Space} {g : Nat} {rec : Schema → Id → Bool}
-    (hrec : ∀ s' t' j' v' fd', rec s' t' = true → de x σ fd' t' j' = .ok v' → NF (validE vx d g s' j'))
+    (hr : HR x vx d σ rec g)
     {s : Schema} {t : Id} {det : Details} {ed : List String} {im : List Impl} (hget : σ.get t = some ⟨det, ed, im⟩)
     (he : encD rec d σ s det = true) {fd : Nat} {j : Json} {v : Val} (hde : de x σ (fd + 1) t j = .ok v) :
     NF (validE vx d (g + 1) s j) := by
+  have hrec : ∀ s' t' j' v' fd', rec s' t' = true → de x σ fd' t' j' = .ok v' → NF (validE vx d g s' j') :=
+    hr g (Nat.le_refl g)
   unfold encD at he
   split at he
   · -- null / unit
@@ -611,7 +1262,7 @@ theorem encD_sound {x : Serde.Ext} {vx : Validate.Ext} (hreg : ∀ p s, x.regex 
         refine and3_NF (by simp [requiredE, NF]) (and3_NF (by simp [declaredE, NF]) ?_)
         apply extraE_NF
         intro key w hkw _
-        simp only
+        simp only [extraHere]
         obtain ⟨b, hb⟩ := C05.mapM'_mem hes (key, w) hkw
         simp only at hb
         cases hvw : de x σ fd vt w with
@@ -631,7 +1282,7 @@ theorem encD_sound {x : Serde.Ext} {vx : Validate.Ext} (hreg : ∀ p s, x.regex 
       refine and3_NF (by simp [requiredE, NF]) (and3_NF (by simp [declaredE, NF]) ?_)
       apply extraE_NF
       intro key w _ _
-      simp [NF]
+      simp [extraHere, NF]
     | arr xs => simp [validE, NF]
     | _ => all_goals simp at hde
   · -- tuple
@@ -672,6 +1323,14 @@ theorem encD_sound {x : Serde.Ext} {vx : Validate.Ext} (hreg : ∀ p s, x.regex 
   · rename_i s' t' _
     simp only [validE]
     exact option_sound hrec hget he hde [.null, s'] (by simp) (by simp)
+  · simp only [validE]; exact external_sound hr hget he hde
+  · simp only [validE]; exact external_sound hr hget he hde
+  · simp only [validE]; exact internal_sound hr hget he hde
+  · simp only [validE]; exact internal_sound hr hget he hde
+  · simp only [validE]; exact adjacent_sound hr hget he hde
+  · simp only [validE]; exact adjacent_sound hr hget he hde
+  · simp only [validE]; exact untagged_sound hr hget he hde
+  · simp only [validE]; exact untagged_sound hr hget he hde
   · simp at he
 
 /-- **C05 at the level of the schema.** For every document, IR, registration of the definitions, schema, type, JSON
@@ -683,83 +1342,88 @@ theorem enc_sound {x : Serde.Ext} {vx : Validate.Ext} (hreg : ∀ p s, x.regex p
     ∀ (g fc : Nat) (s : Schema) (t : Id) (j : Json) (v : Val) (fd : Nat),
       encB d σ rid fc s t = true → de x σ fd t j = .ok v → NF (validE vx d g s j) := by
   intro g
-  induction g with
-  | zero => intro fc s t j v fd _ _; simp [validE, NF]
-  | succ g ihg =>
-    intro fc
-    induction fc with
-    | zero => intro s t j v fd hc; simp [encB] at hc
-    | succ fc ihc =>
-      intro s t j v fd hc hde
-      by_cases hany : s = .any
-      · subst hany; simp [validE, NF]
-      by_cases href : ∃ k, s = .ref k
-      · obtain ⟨k, rfl⟩ := href
-        simp only [encB, Bool.or_eq_true, beq_iff_eq] at hc
-        rcases hc with hc | hc
-        · obtain ⟨s', hg⟩ := hrid k t hc
-          simp only [validE, hg]
-          obtain ⟨t', fc', hr, hc'⟩ := hall k s' hg
-          rw [hc] at hr
-          simp only [Option.some.injEq] at hr; subst hr
-          exact ihg fc' s' t j v fd hc' hde
-        · split at hc
-          · rename_i t' ed im hg
+  induction g using Nat.strongRecOn with
+  | _ g ihg =>
+    cases g with
+    | zero => intro fc s t j v fd _ _; simp [validE, NF]
+    | succ g =>
+      intro fc
+      induction fc with
+      | zero => intro s t j v fd hc; simp [encB] at hc
+      | succ fc ihc =>
+        intro s t j v fd hc hde
+        by_cases hany : s = .any
+        · subst hany; simp [validE, NF]
+        by_cases href : ∃ k, s = .ref k
+        · obtain ⟨k, rfl⟩ := href
+          simp only [encB, Bool.or_eq_true, beq_iff_eq] at hc
+          rcases hc with hc | hc
+          · obtain ⟨s', hg⟩ := hrid k t hc
+            simp only [validE, hg]
+            obtain ⟨t', fc', hr, hc'⟩ := hall k s' hg
+            rw [hc] at hr
+            simp only [Option.some.injEq] at hr; subst hr
+            exact ihg g (by omega) fc' s' t j v fd hc' hde
+          · split at hc
+            · rename_i t' ed im hg
+              cases fd with
+              | zero => simp [de] at hde
+              | succ f =>
+                simp only [de, hg] at hde
+                exact ihc (.ref k) t' j v f hc hde
+            · rename_i nm inner dfl ed im hg
+              cases fd with
+              | zero => simp [de] at hde
+              | succ f =>
+                simp only [de, hg] at hde
+                split at hde
+                · simp at hde
+                · rename_i v' hv'
+                  exact ihc (.ref k) inner j v' f hc hv'
+            · simp at hc
+        · have hc2 : (match σ.get t with
+              | none => false
+              | some ent =>
+                match ent.details with
+                | .newtype _ inner .none _ => encB d σ rid fc s inner
+                | .box t' => encB d σ rid fc s t'
+                | det => encD (encB d σ rid fc) d σ s det) = true := by
+            cases s <;> first | (exact absurd rfl hany) | (exact absurd ⟨_, rfl⟩ href) | (simp only [encB] at hc; exact hc)
+          cases hg : σ.get t with
+          | none => rw [hg] at hc2; simp at hc2
+          | some ent =>
+            rw [hg] at hc2
+            obtain ⟨det, ed, im⟩ := ent
+            simp only at hc2
             cases fd with
             | zero => simp [de] at hde
             | succ f =>
-              simp only [de, hg] at hde
-              exact ihc (.ref k) t' j v f hc hde
-          · rename_i nm inner dfl ed im hg
-            cases fd with
-            | zero => simp [de] at hde
-            | succ f =>
-              simp only [de, hg] at hde
-              split at hde
-              · simp at hde
-              · rename_i v' hv'
-                exact ihc (.ref k) inner j v' f hc hv'
-          · simp at hc
-      · have hc2 : (match σ.get t with
-            | none => false
-            | some ent =>
-              match ent.details with
-              | .newtype _ inner .none _ => encB d σ rid fc s inner
-              | .box t' => encB d σ rid fc s t'
-              | det => encD (encB d σ rid fc) d σ s det) = true := by
-          cases s <;> first | (exact absurd rfl hany) | (exact absurd ⟨_, rfl⟩ href) | (simp only [encB] at hc; exact hc)
-        cases hg : σ.get t with
-        | none => rw [hg] at hc2; simp at hc2
-        | some ent =>
-          rw [hg] at hc2
-          obtain ⟨det, ed, im⟩ := ent
-          simp only at hc2
-          cases fd with
-          | zero => simp [de] at hde
-          | succ f =>
-            by_cases hnt : ∃ n inner dfl, det = .newtype n inner .none dfl
-            · obtain ⟨n, inner, dfl, rfl⟩ := hnt
-              simp only at hc2
-              simp only [de, hg] at hde
-              split at hde
-              · simp at hde
-              · rename_i v' hv'
-                simp only [Except.ok.injEq] at hde
-                exact ihc s inner j v' f hc2 hv'
-            · by_cases hbx : ∃ t', det = .box t'
-              · obtain ⟨t', rfl⟩ := hbx
+              by_cases hnt : ∃ n inner dfl, det = .newtype n inner .none dfl
+              · obtain ⟨n, inner, dfl, rfl⟩ := hnt
                 simp only at hc2
                 simp only [de, hg] at hde
-                exact ihc s t' j v f hc2 hde
-              · have hc3 : encD (encB d σ rid fc) d σ s det = true := by
-                  cases det with
-                  | newtype n inner c dfl =>
-                    cases c with
-                    | none => exact absurd ⟨n, inner, dfl, rfl⟩ hnt
+                split at hde
+                · simp at hde
+                · rename_i v' hv'
+                  simp only [Except.ok.injEq] at hde
+                  exact ihc s inner j v' f hc2 hv'
+              · by_cases hbx : ∃ t', det = .box t'
+                · obtain ⟨t', rfl⟩ := hbx
+                  simp only at hc2
+                  simp only [de, hg] at hde
+                  exact ihc s t' j v f hc2 hde
+                · have hc3 : encD (encB d σ rid fc) d σ s det = true := by
+                    cases det with
+                    | newtype n inner c dfl =>
+                      cases c with
+                      | none => exact absurd ⟨n, inner, dfl, rfl⟩ hnt
+                      | _ => exact hc2
+                    | box t' => exact absurd ⟨t', rfl⟩ hbx
                     | _ => exact hc2
-                  | box t' => exact absurd ⟨t', rfl⟩ hbx
-                  | _ => exact hc2
-                exact encD_sound hreg (fun s' t' j' v' fd' h hd => ihg fc s' t' j' v' fd' h hd) hg hc3 hde
+                  have hr : HR x vx d σ (encB d σ rid fc) g := by
+                    intro g' hg' s' t' j' v' fd' h hd
+                    exact ihg g' (by omega) fc s' t' j' v' fd' h hd
+                  exact encD_sound hreg hr hg hc3 hde
 
 /-! ## non-vacuity and a counterexample
 
